@@ -239,8 +239,14 @@ Theorem line_clone_same_tail : forall dbg be h k,
   let '(_, _, tail_clone, tail_orig) := line_clone dbg be h k in tail_clone = tail_orig.
 Proof. exact line_clone_same_tail_thm. Qed.
 
-Require Import GV.Proofs.LineRdMono.
+(* set_address 0x1000; special 0x4b; advance_pc 3; special 0x20; end_sequence; set_address 0x800; copy;
+   end_sequence  (the sample program of Proofs/LineRdMono.v, repeated here to keep this file's cone small) *)
+Definition ex_line_header : header :=
+  mk_header false 4 4 0 0 1 1 true (-5) 14 13
+    [x00; x01; x01; x01; x01; x00; x00; x00; x01; x00; x00; x01] [] [] [] []
+    [x00; x05; x02; x00; x10; x00; x00;  x4b;  x02; x03;  x20;  x00; x01; x01;
+     x00; x05; x02; x00; x08; x00; x00;  x01;  x00; x01; x01].
 Example line_clone_example :
-  let '(head, early, tail_clone, tail_orig) := line_clone true false sample_header 1 in
+  let '(head, early, tail_clone, tail_orig) := line_clone true false ex_line_header 1 in
   length head = 1%nat /\ early = None /\ Nat.leb 1 (length (fst tail_clone)) = true /\ tail_clone = tail_orig.
 Proof. vm_compute. repeat split. Qed.
